@@ -104,6 +104,22 @@ def aba_paths(rng, n):
         if rng.random() < 0.5:
             ops += [('reset_thermo', dict(x=x, pkg=rng.choice(['P2', 'P3'])))] + [('read', dict(x=x, prop=p)) for p in props]
         out.append([dict(op=o, a=a) for o, a in ops])
+    for _ in range(n // 8):
+        # a read that RAISES after a state change (gas viscosity at 250 K has no model; the caller catches the error) must not leave
+        # the values of the previous state behind for the reads that follow
+        x = rng.choice(['a', 'b'])
+        props = rng.sample([p for p in ds.PROPS if p not in ('mu', 'nu', 'Pr')], 3)
+        ops = [('construct', dict(x=x, k=rng.choice(['s', 'm']), price=0, cf=0)), ('set_flow', dict(x=x, p='l', c=1, v=4)), ('set_flow', dict(x=x, p='l', c=2, v=8))]
+        if ops[0][1]['k'] == 's':
+            ops.append(('set_phase', dict(x=x, p='g')))
+        else:
+            ops += [('set_flow', dict(x=x, p='g', c=1, v=4)), ('set_flow', dict(x=x, p='l', c=1, v=0)), ('set_flow', dict(x=x, p='g', c=2, v=8)), ('set_flow', dict(x=x, p='l', c=2, v=0))]
+        ops.append(('set_T', dict(x=x, T=350)))
+        ops += [('read', dict(x=x, prop=p)) for p in props]
+        ops.append(('set_T', dict(x=x, T=250)))
+        ops.append(('read', dict(x=x, prop=rng.choice(['mu', 'nu', 'Pr']))))
+        ops += [('read', dict(x=x, prop=p)) for p in props]
+        out.append([dict(op=o, a=a) for o, a in ops])
     for _ in range(n // 6):
         # everything a multi-phase stream holds moves from one phase into the (empty) other one, chemical by chemical
         x = rng.choice(['a', 'b'])
